@@ -225,10 +225,20 @@ let ops_c06 = [
   "mstep", (fun f -> show_res (run opf_exec (nat_of_int 20000) (start (parse_val f.(1)) (parse_val f.(2)))));
 ]
 
+(* ---------------- C12 ---------------- *)
+let show_row = function
+  | ROp (n, h, args, v) -> Printf.sprintf "OP %s %s %s" (hex_of_bytes h) (print_val args) (print_val v)
+  | RValue (n, v) -> "VALUE " ^ print_val v
+  | RFinal v -> "FINAL " ^ print_val v
+  | RFailure -> "FAILURE"
+let ops_c12 = [
+  "mcldb", (fun f -> String.concat " | " (List.map show_row (trace opf_exec (nat_of_int 60000) (cldb_start (parse_val f.(1)) (parse_val f.(2))))));
+]
+
 (*OPS-INSERT*)
 
 let all_ops : (string, string array -> string) Hashtbl.t = Hashtbl.create 64
-let () = List.iter (fun l -> List.iter (fun (k, v) -> Hashtbl.replace all_ops k v) l) [ops_c20; ops_c08; ops_c07; ops_c04; ops_c06 (*OPS-LIST*)]
+let () = List.iter (fun l -> List.iter (fun (k, v) -> Hashtbl.replace all_ops k v) l) [ops_c20; ops_c08; ops_c07; ops_c04; ops_c06; ops_c12 (*OPS-LIST*)]
 
 let dispatch (f : string array) : string =
   match Hashtbl.find_opt all_ops f.(0) with
